@@ -226,6 +226,23 @@ pub struct Fresh {
     pub jac: Option<JacObs>,
 }
 
+/// first refusal of the library to build a fresh reference problem during the current
+/// scenario (read and cleared by `props::execute`): the drivers skip a comparison they cannot
+/// make, and a skipped comparison must not silently count as "held"
+pub static FRESH_REFUSED: std::sync::Mutex<Option<String>> = std::sync::Mutex::new(None);
+
+fn note_refusal(e: &str) {
+    if let Ok(mut g) = FRESH_REFUSED.lock() {
+        if g.is_none() {
+            *g = Some(e.to_string());
+        }
+    }
+}
+
+pub fn take_fresh_refusal() -> Option<String> {
+    FRESH_REFUSED.lock().ok().and_then(|mut g| g.take())
+}
+
 pub fn fresh<T: Sc, F: Factory<T>>(
     w: &World<T>,
     alpha: &[T],
@@ -233,9 +250,17 @@ pub fn fresh<T: Sc, F: Factory<T>>(
     want_jac: bool,
 ) -> Result<Fresh, String> {
     let ctl = Arc::new(Ctl::new(vec![]));
-    let model = F::make(w, ctl, alpha)?;
+    let model = F::make(w, ctl, alpha).map_err(|e| {
+        if alpha.len() == w.p() {
+            note_refusal(&e);
+        }
+        e
+    })?;
     // the fresh reference is always built in the canonical order
-    let p = AnyProb::build(model, &w.y, w.w.as_ref(), w.eps, w.mrhs, par, 0)?;
+    let p = AnyProb::build(model, &w.y, w.w.as_ref(), w.eps, w.mrhs, par, 0).map_err(|e| {
+        note_refusal(&e);
+        e
+    })?;
     let s = snap(&p);
     let jac = if want_jac { Some(jac_obs(&p)) } else { None };
     Ok(Fresh { snap: s, jac })
